@@ -58,6 +58,12 @@ def cases(tier, seed):
                 if op == 'sqrt':
                     ka = [0, rng.randrange(1, 2 ** d)]
                 out.append(dict(kind='repeat', cfg=cfg, op=op, ka=ka, kb=kb, other=list(rng.choice(P)), hseed=rng.randrange(10 ** 6)))
+    # registered(symbolic=True) functions of one and three arguments (the n-ary call path), and a counting wrapper
+    for cfg in (dict(p=2), dict(p=2, r=1), dict(p=3)):
+        for op in ('registered-sym1', 'registered-sym3', 'wrapped-gp', 'wrapped-inv', 'wrapped-registered'):
+            for _ in range(2 if tier == 'quick' else 8):
+                dd = sum(cfg.values())
+                out.append(dict(kind='nary-history', cfg=cfg, op=op, ka=rng.sample(range(2 ** dd), 2), kb=rng.sample(range(2 ** dd), 2), hseed=rng.randrange(10 ** 6)))
     # histories with FAILING calls: an evaluation that raises (singular value), a generation that raises (null
     # pattern): nothing generated so far - incl. the operators used inside a composite - may be generated again
     for cfg in (dict(p=2), dict(p=2, r=1), dict(p=3, r=1), dict(p=1, q=1)):
@@ -68,6 +74,66 @@ def cases(tier, seed):
                        (dict(p=2, q=1), 'neg', 200)):
         out.append(dict(kind='long-history', cfg=cfg, op=op, n=n if tier == 'quick' else 3 * n, hseed=rng.randrange(10 ** 6)))
     return out
+
+
+def _run_nary(desc, V):
+    from kingdon.multivector import MultiVector
+    kapi.install_recorder()
+    kapi.reset_generation_counts()
+    op = desc['op']
+    cfg = dict(desc['cfg'])
+    if op.startswith('wrapped'):
+        cfg['wrapper'] = 'counting'
+    alg = make_alg(cfg)
+    rng = random.Random(desc['hseed'])
+    ns = {}
+    exec('def reg_one(x):\n    return x * ~x\n'
+         'def reg_three(x, y, z):\n    return x * y + z\n'
+         'def reg_two(x, y):\n    return (x | y) + (x ^ y)\n', ns)
+    if op == 'registered-sym1':
+        f, nargs = alg.register(ns['reg_one'], symbolic=True), 1
+    elif op == 'registered-sym3':
+        f, nargs = alg.register(ns['reg_three'], symbolic=True), 3
+    elif op == 'wrapped-registered':
+        f, nargs = alg.register(ns['reg_two']), 2
+    elif op == 'wrapped-gp':
+        f, nargs = (lambda x, y: x * y), 2
+    else:
+        f, nargs = (lambda x: x.inv()), 1
+    pats_ = [desc['ka'], desc['kb'], desc['ka']]
+
+    def call(kind, tag):
+        args = [MultiVector.fromkeysvalues(alg, tuple(pats_[i]), _values(kind, V, f'{tag}{i}', len(pats_[i]), rng)) for i in range(nargs)]
+        return f(*args)
+
+    claims = [Note('nontrivial', '')]
+    kinds0 = ['int'] if op.startswith('wrapped') else ['sv']       # the wrapper route is the numeric one
+    try:
+        call(kinds0[0], 'first')
+    except ZeroDivisionError:
+        return [Eq('void', 1, 1)]
+    w = alg.wrapper
+    for i, kind in enumerate(['fraction', 'float', 'int', 'sv', 'int']):
+        before = kapi.recorder_counts()
+        wb = dict(getattr(w, 'applied', {}))
+        try:
+            call(kind, f'rep{i}')
+        except ZeroDivisionError:
+            continue
+        after = kapi.recorder_counts()
+        diff = {k: after[k] - before[k] for k in after if after[k] != before[k]}
+        if diff:
+            claims.append(Fail(f'events-on-repeat[{i}:{kind}]', f'{op}: repeat with {kind} coefficients caused {diff}', fkey=f'nary-history|{op}|events'))
+        wa = getattr(w, 'applied', {})
+        again = {n: wa[n] - wb.get(n, 0) for n in wa if wa[n] != wb.get(n, 0)}
+        if again:
+            claims.append(Fail(f'wrapper-applied-on-repeat[{i}:{kind}]', f'{op}: the wrapper (JIT) was applied again on a repeat: {again}', fkey=f'nary-history|{op}|wrapper-reapplied'))
+    more = {n: c for n, c in getattr(w, 'applied', {}).items() if c > 1}
+    if more:
+        claims.append(Fail('wrapper-applied-twice', f'{op}: generated functions handed to the wrapper more than once: {more}', fkey=f'nary-history|{op}|wrapper-reapplied'))
+    claims += _twice_claims(alg, op)
+    claims.append(Eq('history-completed', 1, 1))
+    return claims
 
 
 def _run_failing(desc, V):
@@ -199,6 +265,8 @@ def run_case(desc, V):
         return _run_long(desc, V)
     if desc['kind'] == 'failing-history':
         return _run_failing(desc, V)
+    if desc['kind'] == 'nary-history':
+        return _run_nary(desc, V)
     from kingdon.multivector import MultiVector
     kapi.install_recorder()
     kapi.reset_generation_counts()
